@@ -133,6 +133,7 @@ where
                 last_path: std::cell::Cell::new(0),
                 budgets: std::cell::Cell::new((100_000, 100_000)),
                 last_steps: std::cell::Cell::new(0),
+                caches: Vec::new(),
             };
             // make sure the slow path is used: hold more guards than there are fast slots
             if t == 0 && !S::NAME.starts_with("fallback") {
